@@ -59,17 +59,38 @@ def analyse_new(fx, rep, new):
                 continue
             break
         per_arm = {}
-        for d in new.defs().get(l, []):
-            if d[0] not in ("stmt", "call"):
-                continue
-            bb = d[1]
+        cands = []  # (bb, expr)
+        ds0 = new.defs().get(l, [])
+        proj = None
+        if len(ds0) == 1 and ds0[0][0] == "stmt" and ds0[0][3]["rv"]["k"] == "use" and "pl" in ds0[0][3]["rv"]["op"]:
+            pp = ds0[0][3]["rv"]["op"]["pl"].get("p", [])
+            if len(pp) == 1 and isinstance(pp[0], dict) and str(pp[0].get("n", "")).isdigit():
+                proj = (ds0[0][3]["rv"]["op"]["pl"]["l"], int(pp[0]["n"]))
+        if proj is not None:
+            # `let (soft, hard) = match tc { .. => (a, b), .. }`: one tuple temp assigned per arm, then projected
+            T, k = proj
+            for d in new.defs().get(T, []):
+                if d[0] == "stmt" and d[3]["rv"]["k"] == "agg" and d[3]["rv"].get("agg") == "tuple" and k < len(d[3]["rv"]["ops"]):
+                    cands.append((d[1], new.expr(d[3]["rv"]["ops"][k], expand_named=True, at=d[1])))
+                elif d[0] == "stmt" and d[3]["rv"]["k"] == "use":
+                    cands.append((d[1], ("field", new.expr(d[3]["rv"]["op"], expand_named=True, at=d[1]), str(k))))
+                elif d[0] == "call":
+                    t = d[2]
+                    cands.append((d[1], ("field", ("call", norm(callee_name(t)), tuple(new.expr(a, expand_named=True, at=d[1]) for a in t["args"])), str(k))))
+        else:
+            for d in ds0:
+                if d[0] not in ("stmt", "call"):
+                    continue
+                bb = d[1]
+                if d[0] == "stmt":
+                    rvd = d[3]["rv"]
+                    e = new.expr(rvd.get("op"), expand_named=True, at=bb) if rvd["k"] == "use" else ("rv", rvd["k"])
+                else:
+                    t = d[2]
+                    e = ("call", norm(callee_name(t)), tuple(new.expr(a, expand_named=True, at=bb) for a in t["args"]))
+                cands.append((bb, e))
+        for bb, e in cands:
             arm = arm_of(fx, new, bb, 2, "search::TimeControl")
-            if d[0] == "stmt":
-                rvd = d[3]["rv"]
-                e = new.expr(rvd.get("op"), expand_named=True, at=bb) if rvd["k"] == "use" else ("rv", rvd["k"])
-            else:
-                t = d[2]
-                e = ("call", norm(callee_name(t)), tuple(new.expr(a, expand_named=True, at=bb) for a in t["args"]))
             per_arm.setdefault(arm, []).append((bb, e))
         info["limits"][fld] = (l, per_arm)
     return info
@@ -340,20 +361,33 @@ def rule_wire(fx, rep, new, info):
     # (b) go handler: GoCmdArguments field -> Clocks field / ExactTime
     ex = fx.one("uci::Uci::execute")
     go_field_to = {}
-    for bb, j, s in ex.stmts():
-        rv = s.get("rv")
-        if s["k"] == "assign" and rv["k"] == "agg" and rv.get("agg") == "adt" and norm(rv["adt"]).endswith("search::Clocks"):
-            for fname, op in zip(rv["fields"], rv["ops"]):
-                e = deep_strip(ex.expr(op, expand_named=True, at=bb))
-                src = [x[2] for x in walk(e) if isinstance(x, tuple) and len(x) == 3 and x[0] == "field" and isinstance(x[1], tuple) and x[1][0] == "field" and x[1][2] == "0"
-                       and isinstance(x[1][1], tuple) and x[1][1][0] == "as" and x[1][1][2] == "Go"]
+    # the Clocks / ExactTime values may be built in the handler or in a helper of the uci module it calls
+    scan = [(ex, None)]
+    for bb, t in ex.calls():
+        hb = fx.body(callee_name(t)) if callee_name(t) else None
+        if hb is not None and hb is not ex and norm(hb.name).startswith("engine::uci::") and hb.kind in ("Fn", "AssocFn") and \
+                ("TimeControl" in hb.local_ty(0) or "Clocks" in hb.local_ty(0)):
+            scan.append((hb, tuple(ex.expr(a, expand_named=True, at=bb) for a in t["args"])))
+
+    def go_sources(e):
+        return [x[2] for x in walk(e) if isinstance(x, tuple) and len(x) == 3 and x[0] == "field" and isinstance(x[1], tuple) and x[1][0] == "field" and x[1][2] == "0"
+                and isinstance(x[1][1], tuple) and x[1][1][0] == "as" and x[1][1][2] == "Go"]
+    for sb, actual in scan:
+        for bb, j, s in sb.stmts():
+            rv = s.get("rv")
+            if s["k"] == "assign" and rv["k"] == "agg" and rv.get("agg") == "adt" and norm(rv["adt"]).endswith("search::Clocks"):
+                for fname, op in zip(rv["fields"], rv["ops"]):
+                    e = sb.expr(op, expand_named=True, at=bb)
+                    e = deep_strip(substitute_args(e, actual) if actual is not None else e)
+                    src = go_sources(e)
+                    if src:
+                        go_field_to[src[0]] = ("clocks", fname)
+            if s["k"] == "assign" and rv["k"] == "agg" and rv.get("agg") == "adt" and norm(rv["adt"]).endswith("search::TimeControl") and rv.get("variant") == "ExactTime":
+                e = sb.expr(rv["ops"][0], expand_named=True, at=bb)
+                e = deep_strip(substitute_args(e, actual) if actual is not None else e)
+                src = [x[2] for x in walk(e) if isinstance(x, tuple) and len(x) == 3 and x[0] == "field" and isinstance(x[1], tuple) and x[1][0] == "field" and x[1][2] == "0"]
                 if src:
-                    go_field_to[src[0]] = ("clocks", fname)
-        if s["k"] == "assign" and rv["k"] == "agg" and rv.get("agg") == "adt" and norm(rv["adt"]).endswith("search::TimeControl") and rv.get("variant") == "ExactTime":
-            e = deep_strip(ex.expr(rv["ops"][0], expand_named=True, at=bb))
-            src = [x[2] for x in walk(e) if isinstance(x, tuple) and len(x) == 3 and x[0] == "field" and isinstance(x[1], tuple) and x[1][0] == "field" and x[1][2] == "0"]
-            if src:
-                go_field_to[src[0]] = ("exact", None)
+                    go_field_to[src[0]] = ("exact", None)
     # (c) parser: token -> GoCmdArguments field
     cg = fx.one("parser::cmd_go")
     token_to_field = {}
